@@ -17,7 +17,7 @@ import (
 // the non-zero timeouts must all succeed (deadlines are per message, a zero timeout means none, the age of the connection is
 // irrelevant); a reply slower than a non-zero ReadTimeout must fail that Send, and must not when ReadTimeout is zero.
 func c15Client(r *Result) {
-	const T = 150 * time.Millisecond
+	const T = 300 * time.Millisecond
 	ca := tlsm.NewCA("c15c-ca")
 	scfg := &tls.Config{Certificates: []tls.Certificate{tlsm.Leaf(ca, tlsm.LeafOpts{Host: "127.0.0.1"})}, ClientCAs: ca.Pool}
 	kmip.DefaultServerTLSConfig(scfg)
